@@ -32,6 +32,11 @@ def _yield(element: str | Expr | tuple[str | Expr, ...], *, flat: bool = True) -
     elif isinstance(element, tuple):
         for elem in element:
             yield from _yield(elem, flat=flat)
+    elif isinstance(element, (ExprYield, ExprYieldFrom)):
+        # A yield nested in another expression needs parentheses.
+        yield "("
+        yield from element.iterate(flat=True) if flat else (element,)
+        yield ")"
     elif flat:
         yield from element.iterate(flat=True)
     else:
